@@ -318,6 +318,9 @@ impl FileStateMachine {
         // Load last applied index and term from metadata file
         self.load_metadata().await?;
 
+        // Load the metadata of the latest snapshot (needed to serve peers below the purge boundary)
+        self.load_snapshot_metadata()?;
+
         // Load key-value data from data file
         self.load_data().await?;
 
@@ -386,6 +389,48 @@ impl FileStateMachine {
             self.last_applied_term.store(term, Ordering::SeqCst);
         }
 
+        Ok(())
+    }
+
+    /// Loads the latest snapshot's metadata from disk (index, term, checksum).
+    fn load_snapshot_metadata(&self) -> Result<(), Error> {
+        let path = self.data_dir.join("snapshot_metadata.bin");
+        let Ok(buf) = std::fs::read(&path) else {
+            return Ok(());
+        };
+        if buf.len() < 24 {
+            return Ok(());
+        }
+        let index = u64::from_be_bytes(buf[0..8].try_into().unwrap());
+        let term = u64::from_be_bytes(buf[8..16].try_into().unwrap());
+        let len = u64::from_be_bytes(buf[16..24].try_into().unwrap()) as usize;
+        if buf.len() < 24 + len {
+            return Ok(());
+        }
+        *self.last_snapshot_metadata.write() = Some(SnapshotMetadata {
+            last_included: Some(LogId { index, term }),
+            checksum: Bytes::copy_from_slice(&buf[24..24 + len]),
+        });
+        Ok(())
+    }
+
+    /// Writes the latest snapshot's metadata next to the data (temporary file + rename).
+    fn store_snapshot_metadata(
+        &self,
+        metadata: &SnapshotMetadata,
+    ) -> Result<(), Error> {
+        let Some(last_included) = metadata.last_included else {
+            return Ok(());
+        };
+        let mut buf = Vec::with_capacity(24 + metadata.checksum.len());
+        buf.extend_from_slice(&last_included.index.to_be_bytes());
+        buf.extend_from_slice(&last_included.term.to_be_bytes());
+        buf.extend_from_slice(&(metadata.checksum.len() as u64).to_be_bytes());
+        buf.extend_from_slice(&metadata.checksum);
+        let path = self.data_dir.join("snapshot_metadata.bin");
+        let tmp = self.data_dir.join("snapshot_metadata.bin.tmp");
+        std::fs::write(&tmp, buf)?;
+        std::fs::rename(&tmp, path)?;
         Ok(())
     }
 
@@ -952,6 +997,7 @@ impl FileStateMachine {
         }
 
         // Clear all persisted files
+        let _ = std::fs::remove_file(self.data_dir.join("snapshot_metadata.bin"));
         self.clear_data_file().await?;
         self.clear_metadata_file().await?;
         self.clear_wal_async().await?;
@@ -1364,7 +1410,8 @@ impl StateMachine for FileStateMachine {
         &self,
         snapshot_metadata: &SnapshotMetadata,
     ) -> Result<(), Error> {
-        self.update_last_snapshot_metadata(snapshot_metadata)
+        self.update_last_snapshot_metadata(snapshot_metadata)?;
+        self.store_snapshot_metadata(snapshot_metadata)
     }
 
     async fn apply_snapshot_from_file(
@@ -1499,7 +1546,7 @@ impl StateMachine for FileStateMachine {
         }
 
         // Update metadata
-        *self.last_snapshot_metadata.write() = Some(metadata.clone());
+        self.persist_last_snapshot_metadata(metadata)?;
 
         if let Some(last_included) = &metadata.last_included {
             self.update_last_applied(*last_included);
@@ -1566,7 +1613,9 @@ impl StateMachine for FileStateMachine {
             checksum: Bytes::from(vec![0; 32]), // Simple checksum for demo
         };
 
-        self.update_last_snapshot_metadata(&metadata)?;
+        // A restarted leader must still know this snapshot: it is all it can offer to peers
+        // whose next entry was purged.
+        self.persist_last_snapshot_metadata(&metadata)?;
 
         info!("Snapshot generated at {:?}", snapshot_path);
 
